@@ -205,6 +205,7 @@ type (
 	View struct {
 		mgr *Manager
 
+		fetched  bool
 		indexes  []*index.Reader
 		releaser indexReleaser
 
@@ -2311,7 +2312,7 @@ func (mgr *Manager) GetView() View {
 }
 
 func (v *View) fetch() error {
-	if len(v.indexes) != 0 {
+	if v.fetched {
 		return nil
 	}
 	v.tagDetails = make(map[string]query.TagDetails)
@@ -2319,6 +2320,7 @@ func (v *View) fetch() error {
 	v.converters = make(map[string]index.ConverterAccess)
 	c := make(chan error)
 	v.mgr.jobs <- func() {
+		v.fetched = true
 		v.indexes, v.releaser = v.mgr.getIndexesCopy(0)
 		for tn, ti := range v.mgr.tags {
 			v.tagDetails[tn] = ti.TagDetails
